@@ -351,5 +351,13 @@ func Changed(id int) bool {
 // of decoders, which only run in the engine).
 func SetField(ptr any, name string, v any) {
 	f := settable(reflect.ValueOf(ptr).Elem().FieldByName(name))
-	f.Set(reflect.ValueOf(v))
+	rv := reflect.ValueOf(v)
+	// like a decoder: a pointer value for a non-pointer field means "key absent" when nil
+	if rv.Kind() == reflect.Pointer && f.Kind() != reflect.Pointer && rv.Type().Elem() == f.Type() {
+		if !rv.IsNil() {
+			f.Set(rv.Elem())
+		}
+		return
+	}
+	f.Set(rv)
 }
